@@ -27,6 +27,14 @@ CHECKS = {
          'exhaustive single-fault injection: every faultable I/O call of every operation variant x fault kind, one per execution, on the real library',
          'Each execution fails exactly one call (EIO; half-written+ENOSPC for writes; OperationalError for commits); afterwards raw state, fresh handle, the faulted handle and a rerun to the normal result are checked.',
          'Single faults only; faults inside SQLite / on reads not injected; injection at the Python call boundary.', '5 C17, 3 E3'),
+ 'C07': ('streamx', 'model_checking',
+         'explicit-state BFS over stream programs to closure of the (implementation stream state x io.BytesIO) product graph; differential oracle',
+         'For every (object size, storage form, acquisition path) all programs over the read/seek/tell alphabet are explored until no new canonical product state appears (programs of unbounded length over that alphabet), plus all programs up to a depth bound without merging; every step is compared with io.BytesIO.',
+         'Alphabet values and object sizes are fixed; states more than 8 bytes past the end are recorded but not expanded; CPython io/zlib trusted.', '5 C07, 3 E4'),
+ 'C04': ('sched', 'model_checking',
+         'stateless schedule exploration of real threads under a baton scheduler, iterative pre-emption bounding, on the real library',
+         'Every schedule with at most the stated number of pre-emptions of each harness (writers x readers x one packer; scheduling points at each visible file-system call / SQL statement) is executed; acknowledged-object visibility and byte equality are checked per reader call and on the final state.',
+         'Threads stand in for processes; at most 3 actors; pre-emption bound 1-2 (quick) / 2-3 (thorough); SQLite-internal steps are atomic.', '5 C04, 3 E2'),
 }
 
 NOT_YET = {
